@@ -48,6 +48,8 @@ class _Sink(edzed.SBlock):
     """destination of output events that have no effect on the circuit"""
 
     def _event(self, etype, data):
+        if etype == 'nosuch':
+            raise edzed.EdzedUnknownEvent(f'{self}: unknown event type {etype!r}')
         return None
 
     def init_regular(self):
@@ -76,7 +78,11 @@ def build(scn, circuit):
             if 'sink' not in blocks:
                 blocks['sink'] = _Sink('sink')
             for mode in sb['sink']:
-                kw['on_every_output' if mode == 'every' else 'on_output'] = edzed.Event('sink', 'ev')
+                if mode == 'unk':
+                    # an event type the destination does not know (not at start: the change from UNDEF is filtered)
+                    kw['on_output'] = edzed.Event('sink', 'nosuch', efilter=edzed.not_from_undef)
+                else:
+                    kw['on_every_output' if mode == 'every' else 'on_output'] = edzed.Event('sink', 'ev')
         blocks[f's{i}'] = cls(f's{i}', initdef=sb['init'], **kw)
     order = scn.get('order') or list(range(len(scn['cblocks'])))
     for j in order:
@@ -233,12 +239,16 @@ def run(scn):
                 break
             for ev in burst:
                 i = ev[0]
-                if ev[1] == 'put':
-                    edzed.ExtEvent(sblocks[i], 'put').send(ev[2])
-                    lines.append(f'sim ext {i} put {enc(ev[2])}')
-                else:
-                    edzed.ExtEvent(sblocks[i], 'inc').send()
-                    lines.append(f'sim ext {i} inc')
+                try:
+                    if ev[1] == 'put':
+                        edzed.ExtEvent(sblocks[i], 'put').send(ev[2])
+                    else:
+                        edzed.ExtEvent(sblocks[i], 'inc').send()
+                except edzed.EdzedUnknownEvent:
+                    # an output event of this block went to a destination that does not know its type:
+                    # documented as non-fatal, the caller gets the exception, the simulation goes on
+                    pass
+                lines.append(f'sim ext {i} put {enc(ev[2])}' if ev[1] == 'put' else f'sim ext {i} inc')
                 trace.append('ok ' + enc(sblocks[i].output))
             await vtime.settle(loop)
             alive = flush()
